@@ -21,7 +21,11 @@ impl std::str::FromStr for Signature {
         // Normal examples say PGP line shall start next line after `Signed-By` field
         // but all my files have it starting after a space in the same line and that works.
         // It's quite confusing, but let it be... we have to deal with reality.
-        if text.contains("\n") {
+        if let Some(block) = text.strip_prefix('\n') {
+            // `Display` writes a key block on the line after the field name: take that
+            // newline off again, so that a printed `KeyBlock` reads back as the same value
+            Ok(Signature::KeyBlock(block.to_string()))
+        } else if text.contains("\n") {
             // If text is multiline, we assume PGP Public Key block
             Ok(Signature::KeyBlock(text.to_string()))
         } else {
